@@ -5,7 +5,10 @@ import Aurora.Model.DecryptStore
 /-! Driver for C08: `encryption.New(..).Encrypt/Decrypt/Reset`, `EncryptChunk`, the decrypting
     store's `Get` (incl. synthetic chunks with arbitrary spans) and the shape of the trees the
     encrypted pipeline writes, with real Keccak-256.  Random keys / padding drawn by the code are
-    oracle values (`| <tokens>` annotations) whose lengths the model checks. -/
+    oracle values (`| <tokens>` annotations) whose lengths the model checks.
+    `trie <seed> <n> <last>`: the encrypted pipeline's hash-trie writer fed with `n` leaves of span `C` (+ one of `last`
+    bytes) and no data (subtrees of `2^32` bytes and more): the root span is the sum of the leaf spans, `get` follows paths
+    as in a pipeline file of that length (a path that fetches a leaf answers `err`: leaves are not stored). -/
 namespace Driver.C08
 open Aurora.Bmt Aurora.Encryption Aurora.DecryptStore
 
@@ -18,7 +21,8 @@ structure St where
   enc : Option Enc := none
   last : Option Bytes := none                    -- output of the last successful `e`
   chunk : Option (Bytes × Bytes) := none          -- (key, encrypted chunk) of the last `chunk`
-  file : Option Nat := none                       -- length of the file written by `pipe`
+  file : Option Nat := none                       -- length of the file written by `pipe` / `trie`
+  synth : Bool := false                          -- `trie`: the leaves are not stored (only their references were written)
 
 def digest (b : Bytes) : String := Driver.bytesToHex ((keccak b).take 8)
 
@@ -41,6 +45,19 @@ def pathSpan : List Nat → Nat → Option Nat
       if i + 1 < k then pathSpan rest fl
       else if i + 1 = k then pathSpan rest (s - (k - 1) * fl)
       else none
+
+/-- `trie` files: following `path`, is a chunk of span `≤ C` (a leaf, never stored) fetched? -/
+def leafOnPath : List Nat → Nat → Bool
+  | [], s => s ≤ C
+  | i :: rest, s =>
+    if s ≤ C then true
+    else
+      let h := (List.range 8).find? (fun h => s ≤ full C B (h + 1)) |>.getD 8
+      let fl := full C B h
+      let k := (s + fl - 1) / fl
+      if i + 1 < k then leafOnPath rest fl
+      else if i + 1 = k then leafOnPath rest (s - (k - 1) * fl)
+      else false
 
 def u64 (n : Nat) : UInt64 := UInt64.ofNat n
 
@@ -118,8 +135,17 @@ def step (st : St) (opl : List String) : St × String :=
     match n.toNat? with
     | none => (st, "bad-op")
     | some n =>
-      ({ st with file := some n },
+      ({ st with file := some n, synth := false },
         s!"ok {n} {(lengthLoop (u64 C) (u64 R) (u64 n)).toNat} {chunkCount C B 8 n} {n}")
+  | ["trie", seed, n, last] =>
+    -- the hash-trie writer of the encrypted pipeline fed with `n` leaves of span `C` (+ one of `last` bytes):
+    -- the root's span is the sum of the leaf spans, the decrypting store returns 64 bytes per child
+    match seed.toNat?, n.toNat?, last.toNat? with
+    | some seed, some n, some last =>
+      if seed ≥ 2 ^ 32 ∨ n < 1 ∨ n > 100000 ∨ last > C ∨ (n = 1 ∧ last = 0) then (st, "bad-op") else
+      let s := n * C + last
+      ({ st with file := some s, synth := true }, s!"ok {s} {(lengthLoop (u64 C) (u64 R) (u64 s)).toNat}")
+    | _, _, _ => (st, "bad-op")
   | ["get", path] =>
     match st.file with
     | none => (st, "nofile")
@@ -128,6 +154,7 @@ def step (st : St) (opl : List String) : St × String :=
       match idx with
       | none => (st, "bad-op")
       | some idx =>
+        if st.synth && leafOnPath idx n then (st, "err") else
         match pathSpan idx n with
         | none => (st, "range")
         | some s =>
